@@ -241,27 +241,33 @@ def cframe(f):
 
 def cenc_tree(t, ind='  '):
     if t[0] == 'unknown':
-        return 'EncUnknown'
+        return '(Leaf EncUnknown)'
     if t[0] == 'leaf':
         r = t[1]
         if 'error' in r:
-            return '(EncRaise %d)' % ERRC.get(r['error'], 99)
-        return '(EncFrames [%s]\n%s   [%s])' % (('; \n' + ind + '   ').join(cframe(f) for f in r['frames']), ind,
-                                                '; '.join('(%s, %s)' % (protoinfo.coq_str(k), cpval(v))
-                                                          for k, v in r['params']))
-    return '(if %s\n%sthen %s\n%selse %s)' % (cb(t[1]), ind, cenc_tree(t[2], ind + '  '), ind, cenc_tree(t[3], ind + '  '))
+            return '(Leaf (EncRaise %d))' % ERRC.get(r['error'], 99)
+        return '(Leaf (EncFrames [%s]\n%s   [%s]))' % (('; \n' + ind + '   ').join(cframe(f) for f in r['frames']), ind,
+                                                       '; '.join('(%s, %s)' % (protoinfo.coq_str(k), cpval(v))
+                                                                 for k, v in r['params']))
+    return '(Node %s\n%s%s\n%s%s)' % (cb(t[1]), ind, cenc_tree(t[2], ind + '  '), ind, cenc_tree(t[3], ind + '  '))
 
 
 def cdec_tree(t, ind='  '):
     if t[0] == 'unknown':
-        return 'DecUnknown'
+        return '(Leaf DecUnknown)'
     if t[0] == 'leaf':
         r = t[1]
         if r['outcome'][0] == 'raise':
-            return '(DecRaise %d)' % ERRC.get(r['outcome'][1], 99)
+            return '(Leaf (DecRaise %d))' % ERRC.get(r['outcome'][1], 99)
         ov = r['outcome'][1]
-        return '(DecOk [%s])' % '; '.join('(%s, %s)' % (protoinfo.coq_str(k), cpval(v)) for k, v in sorted(ov.items()))
-    return '(if %s\n%sthen %s\n%selse %s)' % (cb(t[1]), ind, cdec_tree(t[2], ind + '  '), ind, cdec_tree(t[3], ind + '  '))
+        return '(Leaf (DecOk [%s]))' % '; '.join('(%s, %s)' % (protoinfo.coq_str(k), cpval(v)) for k, v in sorted(ov.items()))
+    return '(Node %s\n%s%s\n%s%s)' % (cb(t[1]), ind, cdec_tree(t[2], ind + '  '), ind, cdec_tree(t[3], ind + '  '))
+
+
+def tree_leaves(t):
+    if t[0] == 'node':
+        return tree_leaves(t[2]) + tree_leaves(t[3])
+    return [t]
 
 
 HEADER = '''From Coq Require Import ZArith List Bool String.
@@ -322,16 +328,16 @@ def emit(p, m):
     out = [HEADER]
     if m['status'].get('encode') == 'ok':
         for n in range(NMAX + 1):
-            out.append('Definition enc_%s_%d %s: enc_model :=\n  %s.\n' % (
+            out.append('Definition enc_%s_%d %s: tree enc_model :=\n  %s.\n' % (
                 name, n, ('(%s : Z) ' % args) if args else '', cenc_tree(m['enc'][n]['tree'])))
-        out.append('Definition enc_%s (n : nat) %s: enc_model :=\n  match n with %s | _ => EncUnknown end.\n' % (
+        out.append('Definition enc_%s (n : nat) %s: tree enc_model :=\n  match n with %s | _ => Leaf EncUnknown end.\n' % (
             name, ('(%s : Z) ' % args) if args else '',
             ' | '.join('%d%%nat => enc_%s_%d %s' % (n, name, n, args) for n in range(NMAX + 1))))
     if m['status'].get('decode') == 'ok':
         if not p['parameters']:
             raise tracer.Refused('decode fields come from variant parameter tables (_parameters1/2)')
         fl = ' '.join('f_' + x[0] for x in p['parameters'])
-        out.append('Definition dec_%s %s: dec_model :=\n  %s.\n' % (
+        out.append('Definition dec_%s %s: tree dec_model :=\n  %s.\n' % (
             name, ('(%s : iw) ' % fl) if fl else '', cdec_tree(m['dec']['tree'])))
     return '\n'.join(out)
 
